@@ -894,8 +894,8 @@ func (g *Gen) History() []Entry {
 // from a PRNG of their own, so everything before them is unchanged.
 func (g *Gen) tail() {
 	g.R = rand.New(rand.NewSource(g.seed*7919 + 104729))
-	order := g.R.Perm(7)
-	n := 2 + g.R.Intn(3)
+	order := g.R.Perm(10)
+	n := 3 + g.R.Intn(3)
 	if len(g.P.TailForce) > 0 {
 		order, n = g.P.TailForce, len(g.P.TailForce)
 	}
@@ -1071,6 +1071,61 @@ func (g *Gen) tailScenario(sc int) {
 		g.line(b, "PRIVMSG "+ch+" :did the captcha open the door")
 		g.line(a, "INVITE "+b.nick+" "+ch)
 		g.line(b, "JOIN "+ch+" "+g.captchaToken(ch))
+	case 7: // caller-id (+G): a message reaches the user only from somebody sharing a channel
+		rs := g.regs()
+		if len(rs) < 2 {
+			return
+		}
+		a, b := rs[0], rs[len(rs)-1]
+		g.line(b, "MODE "+b.nick+" +G")
+		for _, ch := range []string{"#g1", "#g2", "#g3", "#g4"} {
+			g.line(b, "JOIN "+ch)
+		}
+		g.line(a, "JOIN "+g.pick([]string{"#g2", "#g3"}))
+		g.line(a, "PRIVMSG "+b.nick+" :do we share a channel")
+		g.line(a, "NOTICE "+b.nick+" :and again")
+		if len(rs) > 2 {
+			g.line(rs[1], "PRIVMSG "+b.nick+" :from somebody who may share none")
+		}
+		g.line(b, "MODE "+b.nick+" -G")
+	case 8: // the ban list query next to real changes in one MODE command, by somebody who is not an operator of the channel
+		rs := g.regs()
+		if len(rs) < 2 {
+			return
+		}
+		a, b := rs[0], rs[len(rs)-1]
+		ch := g.pick([]string{"#q1", "#Q2"})
+		g.line(a, "JOIN "+ch)
+		g.line(b, "JOIN "+ch)
+		g.line(b, g.pick([]string{"MODE " + ch + " +ob " + b.nick, "MODE " + ch + " +ikb sekrit", "MODE " + ch + " -ob " + a.nick, "MODE " + ch + " +b", "MODE " + ch + " +bo " + b.nick}))
+		g.line(b, "NAMES "+ch)
+		g.line(b, "KICK "+ch+" "+a.nick+" :am i an operator now")
+		g.line(b, "TOPIC "+ch+" :or allowed to set this")
+		g.line(a, "MODE "+ch)
+	case 9: // an invitation into a captcha-protected channel is used up by the JOIN; a message of death as a session's last word
+		rs := g.regs()
+		if len(rs) < 2 || g.P.NoConfig {
+			return
+		}
+		a, b := rs[0], rs[len(rs)-1]
+		if g.captcha {
+			ch := g.pick([]string{"#inv", "#Inv2"})
+			g.line(a, "JOIN "+ch)
+			g.line(a, "MODE "+ch+" +x")
+			g.line(a, "INVITE "+b.nick+" "+ch)
+			g.line(b, "JOIN "+ch)
+			g.line(b, "PART "+ch+" :and back without a new invitation")
+			g.line(b, "JOIN "+ch)
+			if g.R.Intn(2) == 0 {
+				g.line(a, "MODE "+ch+" +i")
+				g.line(a, "KICK "+ch+" "+b.nick+" :out")
+				g.line(b, "JOIN "+ch)
+			}
+		}
+		if g.P.MoD {
+			g.emit(Entry{Type: int64(robust.MessageOfDeath), Session: b.id, Data: "JOIN #a", ClientMessageId: uint64(g.R.Int63()) | 1, Cmd: "MOD"})
+			g.line(a, "PRIVMSG #a :after the message of death")
+		}
 	case 4: // SVSPART, then the parted user is looked up, renames and leaves
 		if !g.P.Services || !g.hasCfg {
 			return
